@@ -11,6 +11,7 @@ package main
 
 import (
 	"bytes"
+	"errors"
 	"sort"
 
 	"github.com/utreexo/utreexo"
@@ -46,7 +47,12 @@ func (o *orderedLeaves) ForEach(fn func(Hash, uint64) error) error {
 type orderedNodes struct {
 	m   map[uint64]utreexo.Leaf
 	ops int
+	// failScanAfter >= 0: the next ForEach breaks off with errScan after that many entries (a
+	// store whose scan fails, e.g. a database); -1 = never
+	failScanAfter int
 }
+
+var errScan = errors.New("node store: scan failed")
 
 func (o *orderedNodes) Get(k uint64) (utreexo.Leaf, bool) { o.ops++; v, ok := o.m[k]; return v, ok }
 func (o *orderedNodes) Put(k uint64, v utreexo.Leaf)     { o.ops++; o.m[k] = v }
@@ -58,7 +64,10 @@ func (o *orderedNodes) ForEach(fn func(uint64, utreexo.Leaf) error) error {
 		keys = append(keys, k)
 	}
 	sort.Slice(keys, func(i, j int) bool { return keys[i] < keys[j] })
-	for _, k := range keys {
+	for i, k := range keys {
+		if o.failScanAfter >= 0 && i >= o.failScanAfter {
+			return errScan
+		}
 		v, ok := o.m[k]
 		if !ok {
 			continue
@@ -74,6 +83,6 @@ func (o *orderedNodes) ForEach(fn func(uint64, utreexo.Leaf) error) error {
 func newMapCustom(full bool, rows uint8) *utreexo.MapPollard {
 	m := newMap(full, rows)
 	m.CachedLeaves = &orderedLeaves{m: map[Hash]uint64{}}
-	m.Nodes = &orderedNodes{m: map[uint64]utreexo.Leaf{}}
+	m.Nodes = &orderedNodes{m: map[uint64]utreexo.Leaf{}, failScanAfter: -1}
 	return m
 }
